@@ -1408,3 +1408,13 @@ MP('r61_ensure_trailing_bytes_inverted', ['C16'], ['C16-R2'], 'ensure() form of 
 
 MP('r60_inlined_feed_predicate_widened', ['C07', 'C15'], ['C07-R3', 'C15-R4'], 'the inlined kind predicate of the Feed section also matches Gossip',
    'selftest/neutral/R60.diff', (LIB, 'matches!(header.message, Message::Feed)', 'matches!(header.message, Message::Feed | Message::Gossip)'))
+
+# mutants on top of the refactored spellings of Members::next (R63: match-form fallback; R64: sub-slices)
+MP('r63_fallback_dropped', ['C14'], ['C14-R3'], 'match-form fallback removed: nothing before the cursor is ever searched',
+   'selftest/neutral/R63.diff', (MEMBER, ('re', r'None => self\s*\.inner\s*\.iter\(\)\s*(//[^\n]*\n\s*)*\.take\(start\)\s*\.position\(\|m\| m\.is_active\(\)\),'), 'None => None,'))
+MP('r63_advance_from_start', ['C14'], ['C14-R4'], 'the cursor advances from the round start instead of the found index',
+   'selftest/neutral/R63.diff', (MEMBER, '                    pos.saturating_add(1)\n', '                    start.saturating_add(1)\n'))
+MP('r64_wrap_slice_short', ['C14'], ['C14-R3'], 'sub-slice fallback stops one record before the cursor',
+   'selftest/neutral/R64.diff', (MEMBER, 'self.inner[..self.cursor]\n', 'self.inner[..self.cursor.saturating_sub(1)]\n'))
+MP('r64_offset_not_added', ['C14'], ['C14-R3'], 'the sub-slice position is used as an absolute index',
+   'selftest/neutral/R64.diff', (MEMBER, '.map(|pos| self.cursor + pos)', '.map(|pos| pos)'))
